@@ -960,7 +960,12 @@ class OctetString(base.SimpleAsn1Type):
                 return '0x' + ''.join(('%.2x' % x for x in numbers))
         else:
             # this prevents infinite recursion
-            return OctetString.__str__(self)
+            try:
+                return OctetString.__str__(self)
+
+            except error.PyAsn1UnicodeDecodeError:
+                # printable octets that are not text in `encoding`
+                return '0x' + ''.join(('%.2x' % x for x in numbers))
 
     @staticmethod
     def fromBinaryString(value):
